@@ -348,6 +348,31 @@ def rules(ctx):
                 ends_at_head = path[-1][0] is lp
                 if ends_at_head and not st:
                     allstore = False
+            # ... and the substitution is attempted on every coefficient: each path contains v.subs(*args, **kwargs) with
+            # the caller's arguments passed on whole (a pre-filter such as `v.has(...)` decides by its own reading of the
+            # arguments which coefficients are substituted: the call forms of sympy's subs it does not anticipate leave
+            # the symbol in place)
+            vv = src(lp.target.elts[1])
+            va = ds.node.args.vararg.arg if ds.node.args.vararg else None
+            kw = ds.node.args.kwarg.arg if ds.node.args.kwarg else None
+
+            def attempts(n_):
+                if not isinstance(n_, ast.AST):
+                    return False
+                for e_ in ([n_.test] if isinstance(n_, (ast.If, ast.While)) else [n_.iter] if isinstance(n_, ast.For) else
+                           [] if isinstance(n_, (ast.Try, ast.ExceptHandler, ast.With, ast.FunctionDef)) else [n_]):
+                    for c_ in ast.walk(e_):
+                        if isinstance(c_, ast.Call) and isinstance(c_.func, ast.Attribute) and c_.func.attr == 'subs' and src(c_.func.value) == vv \
+                                and len(c_.args) == 1 and isinstance(c_.args[0], ast.Starred) and is_name(c_.args[0].value, va or '') \
+                                and len(c_.keywords) == 1 and c_.keywords[0].arg is None and is_name(c_.keywords[0].value, kw or ''):
+                            return True
+                return False
+            unatt = [path for path in paths if path[-1][0] is lp and not any(attempts(n_) for n_, lab in path)]
+            ctx.inst('R16.2', ds, lp, not unatt,
+                     "the substitution is attempted on every coefficient with the caller's arguments" if not unatt else
+                     "some path through the loop stores a coefficient without calling %s.subs(*%s, **%s) on it: which coefficients "
+                     "are substituted then depends on a pre-filter's reading of the arguments, and a symbol can be left in place"
+                     % (vv, va, kw))
             okl = allstore
             ctx.inst('R16.2', ds, lp, okl,
                      "every key of self gets a value on every path of the loop body (%d paths)" % len(paths) if okl else
